@@ -331,6 +331,15 @@ def foreign_labels(repo, rep, rule):
 
 
 def run(repo, rep, tier):
+    rep.rule("R-C05-11", "(shared with C02) the peak direction is the stored coordinate at the arg-max of the spectrum AS STORED: an index found on a re-sorted copy is "
+                         "not applied to the caller-ordered labels")
+    from .c02 import peak_direction as _pd
+    from .c07 import _Relabel
+    _pd(repo, _Relabel(rep, "R-C05-11"))
+    rep.rule("R-C05-12", "(shared with C04) the watershed-line reassignment of the native routine reads one array and writes a snapshot: updating labels in place "
+                         "makes the result depend on the storage order of the bins (hence on how the directions are rolled)")
+    from . import cnative as _cn
+    rep.floor("R-C05-12", "neighbour-label reassignment stores", _cn.double_buffer(repo, rep, "R-C05-12"), 1)
     from .round7b import hygiene
     hygiene(repo, rep, "C05", ('wavespectra.specarray', 'wavespectra.core.utils', 'wavespectra.partition.', 'wavespectra.core.xrstats'), falsy=True)
     rep.rule("R-C05-9", "assign_coords never stamps another labelled object's coordinates onto data (that is a positional pairing): labels come from the receiver itself, "
